@@ -2,9 +2,13 @@
    Proved on the model: a chunk is written as  size-line ++ data ++ CR LF  (exactly two bytes of
    terminator); the response head has no empty line before its end (Properties_C13).  The grammar of
    whole wire streams is decided by an independent recogniser run over the bytes the real server hands
-   to write() in every history (props/simgen.py recognise_responses). *)
+   to write() in every history (props/simgen.py recognise_responses).  In Coq, for a response with a body sent by
+   an idle connection: the bytes handed to the socket are tx_response::message followed by the body, and the
+   library's own response receiver reads exactly these bytes back as one valid response with that body, leaving
+   whatever follows (C04_response_with_body_is_one_valid_response; the grammar here is the receiver's). *)
 From Via Require Import M_Char M_Encode M_Parse M_Receive M_Server P_Server.
 From Via Require Import M_Client P_Client.
+From Via Require Import P_C04 P_C02 P_C08c P_C08d P_C08e P_C08f P_C08g.
 Local Open Scope N_scope.
 
 Theorem C04_chunk_frame : forall c, slots_bytes c [SHeader; SBody; SCrlf] = c_tx_header c ++ c_tx_body c ++ [13; 10].
@@ -13,6 +17,74 @@ Proof. exact chunk_frame_bytes. Qed.
 Example C04_example_chunk_header : chunk_header_string 26 [120; 61; 49] = [49; 97; 59; 32; 120; 61; 49; 13; 10]
   /\ last_chunk_string [] [] = [48; 13; 10; 13; 10].
 Proof. vm_compute. split; reflexivity. Qed.
+
+(* ---- server responses ---- *)
+Theorem C04_response_bytes : forall o w c rp,
+  c_transmitting c = false -> c_connected c = true -> rp_ov rp = 1 ->
+  let reason := match reason_phrase (rp_status rp) with [] => custom_reason | _ => [] end in
+  let resp0 := tx_response_of_reason reason (rp_status rp) (rp_hdrs rp) in
+  let body := body_of (w_reqno w) (rp_len rp) in
+  tx_response_is_valid resp0 = true ->
+  rv_is_head (c_rx c) = false -> content_permitted (rp_status rp) = true ->
+  exists l, snd (app_respond o w c rp) =
+            LWrite (c_id c) (response_message (with_version c resp0) (nlen body) ++ body) :: l.
+Proof. exact response_write_bytes. Qed.
+
+Theorem C04_response_with_body_is_one_valid_response : forall o w c rp ccfg st rs ma mi hs rest,
+  c_transmitting c = false -> c_connected c = true -> rp_ov rp = 1 ->
+  let reason := match reason_phrase (rp_status rp) with [] => custom_reason | _ => [] end in
+  let resp0 := tx_response_of_reason reason (rp_status rp) (rp_hdrs rp) in
+  let body := body_of (w_reqno w) (rp_len rp) in
+  tx_response_is_valid resp0 = true ->
+  rv_is_head (c_rx c) = false -> content_permitted (rp_status rp) = true ->
+  (* the response as it goes out: status, reason, the version taken from the request, the caller's header lines *)
+  with_version c resp0 = mk_tx_response st rs ma mi (lines_bytes hs) ->
+  let L := cc_lim ccfg in
+  let n := nlen body in
+  let hs' := hs ++ [cl_line n] in
+  let F := fold_left add_line hs' [] in
+  isdigit ma = true -> isdigit mi = true -> st <= max_status L -> st <= LONG_MAX ->
+  forallb reason_char rs = true -> (match rs with c0 :: _ => isblank c0 = false | [] => True end) ->
+  nlen rs <= max_reason L -> 1 <= max_ws L ->
+  Forall (line_ok L) hs' -> within L [] 0 hs' ->
+  response_adds_content_length (mk_tx_response st rs ma mi (lines_bytes hs)) = true ->
+  fields_find hf_LC_TRANSFER_ENCODING F = None ->
+  fields_find hf_LC_CONTENT_LENGTH F = Some (to_dec_string n) ->
+  n <= LONG_MAX ->
+  exists bytes l v1,
+    snd (app_respond o w c rp) = LWrite (c_id c) bytes :: l /\
+    creceive ccfg (cv_init ccfg) (bytes ++ rest) = (v1, rest, RX_VALID) /\ cv_body v1 = body.
+Proof.
+  intros o w c rp ccfg st rs ma mi hs rest Ht Hc Hov reason resp0 body Hv Hh Hp Hwv L n hs' F
+         Ha Hi Hst Hlm Hr Hb Hl Hws Hok Hwi Hadd Hte Hcl Hn.
+  destruct (response_write_bytes o w c rp Ht Hc Hov Hv Hh Hp) as [l Hlog].
+  fold reason resp0 body in Hlog. rewrite Hwv in Hlog.
+  destruct (response_message_roundtrip ccfg st rs ma mi hs body rest Ha Hi Hst Hlm Hr Hb Hl Hws Hok Hwi Hadd Hte Hcl Hn) as [v1 [H1 [_ [_ H4]]]].
+  exists (response_message (mk_tx_response st rs ma mi (lines_bytes hs)) (nlen body) ++ body), l, v1.
+  split; [exact Hlog | split; [rewrite <- app_assoc; exact H1 | exact H4]].
+Qed.
+
+(* non-vacuity: a connected idle connection, a 200 with one header line and a two-byte body meet every premise *)
+Example C04_example_response :
+  let cfg := mk_rcfg (mk_limits 8190 8 100 65534 1024 8 65534 65534 false) 1048576 1048576 true true false in
+  let ccfg := mk_ccfg (mk_limits 0 0 65534 9223372036854775807 65534 254 65534 65534 false) 1048576 1048576 in
+  let c := mk_conn 1 false true false false false true false false None true true (rv_init cfg) [] [] [] [] 0 false in
+  let hs := [([83;101;114;118;101;114], [118])] in
+  let rp := mk_recipe 200 2 1 (lines_bytes hs) in
+  let resp0 := tx_response_of_reason [] 200 (lines_bytes hs) in
+  let body := body_of (w_reqno w_init) 2 in
+  let hs' := hs ++ [cl_line (nlen body)] in
+  tx_response_is_valid resp0 = true /\ content_permitted 200 = true /\
+  with_version c resp0 = mk_tx_response 200 [79;75] 49 49 (lines_bytes hs) /\
+  Forall (line_ok (cc_lim ccfg)) hs' /\ within (cc_lim ccfg) [] 0 hs' /\
+  response_adds_content_length (mk_tx_response 200 [79;75] 49 49 (lines_bytes hs)) = true /\
+  fields_find hf_LC_TRANSFER_ENCODING (fold_left add_line hs' []) = None /\
+  fields_find hf_LC_CONTENT_LENGTH (fold_left add_line hs' []) = Some (to_dec_string (nlen body)).
+Proof.
+  repeat match goal with |- _ /\ _ => split end; try (vm_compute; reflexivity);
+    try (repeat constructor; cbn; try discriminate; lia);
+    try (cbn [within]; vm_compute; repeat split; intros; discriminate).
+Qed.
 
 (* ---- client requests ---- *)
 Theorem C04_client_request_framing : forall o ov m u h b,
@@ -30,5 +102,7 @@ Theorem C04_client_chunk_framing : forall d x,
 Proof. exact client_chunk_framing. Qed.
 
 Print Assumptions C04_chunk_frame.
+Print Assumptions C04_response_bytes.
+Print Assumptions C04_response_with_body_is_one_valid_response.
 Print Assumptions C04_client_request_framing.
 Print Assumptions C04_client_chunk_framing.
